@@ -451,7 +451,7 @@ fn make_args(r: &Req, incdir: &Option<String>) -> Args {
     }
     for f in &r.flags {
         match f.as_str() {
-            "ic" => a.push("--insert_code".into()),
+            "ic" => a.push("--insert-code".into()),
             "sc" => a.push("--fsigned_char".into()),
             w if w.starts_with("W") => a.push(format!("-{}", w)),
             _ => {}
